@@ -19,9 +19,26 @@ def sh(cmd, **kw):
     return subprocess.run(cmd, shell=True, stdout=subprocess.PIPE, stderr=subprocess.STDOUT, text=True, **kw)
 
 
+_BIN = None
+
+
+def snapshot_binary():
+    """Build the analyser once and run a private copy, so that editing the checker while a long
+    matrix run is in progress cannot disturb it."""
+    global _BIN
+    if _BIN is None:
+        sh(os.path.join(VERIF, "build.sh"))
+        _BIN = os.path.join(tempfile.gettempdir(), "pscheck.%d" % os.getpid())
+        shutil.copy2(os.path.join(VERIF, "bin", "pscheck"), _BIN)
+        import atexit
+        atexit.register(lambda: os.path.exists(_BIN) and os.remove(_BIN))
+    return _BIN
+
+
 def run_prop(wt, prop):
-    env = dict(os.environ, VERIF_REPO=wt)
-    r = subprocess.run([os.path.join(VERIF, "check.sh"), prop, "quick", "-no-evidence"], env=env,
+    env = dict(os.environ, VERIF_DIR=VERIF)
+    cmd = ". %s/env.sh; exec %s -prop %s -tier quick -repo %s -no-evidence" % (VERIF, snapshot_binary(), prop, wt)
+    r = subprocess.run(["bash", "-c", cmd], env=env,
                        stdout=subprocess.PIPE, stderr=subprocess.STDOUT, text=True)
     fired = []
     for line in r.stdout.splitlines():
@@ -35,7 +52,7 @@ def run_prop(wt, prop):
 def main():
     ids = sys.argv[1:] or sorted(d for d in os.listdir(os.path.join(VERIF, "seeded"))
                                  if os.path.isfile(os.path.join(VERIF, "seeded", d, "patch.diff")))
-    sh(os.path.join(VERIF, "build.sh"))
+    snapshot_binary()
     wt = tempfile.mkdtemp(prefix="seedmx.")
     os.rmdir(wt)
     r = sh(f"git -C {REPO} worktree add -q --detach {wt} HEAD")
